@@ -34,7 +34,7 @@ macro_rules! slice_h {
     };
 }
 
-//@ prop=C12 tier=quick cost=30 fns="codec::h264::is_h264_keyframe,AnnexBNalIter::next,find_start_code" bound="all byte strings of length 0..=6" unwind=9 stubs="assert_invariant(panic-only)"
+//@ prop=C12 tier=quick cost=61 fns="codec::h264::is_h264_keyframe,AnnexBNalIter::next,find_start_code" bound="all byte strings of length 0..=6" unwind=9 stubs="assert_invariant(panic-only)"
 slice_h!(c12_h264_is_keyframe, 6, 9, |d| {
     let _ = h264::is_h264_keyframe(d);
 });
@@ -46,7 +46,7 @@ slice_h!(c12_h265_nal_type, 2, 4, |d| {
     let _ = h265::is_hevc_keyframe_nal_type(kani::any());
 });
 
-//@ prop=C12 tier=quick cost=20 fns="codec::av1::read_leb128,obu_type,obu_has_extension,obu_has_size" bound="all byte strings of length 0..=10" unwind=12
+//@ prop=C12 tier=quick cost=5 fns="codec::av1::read_leb128,obu_type,obu_has_extension,obu_has_size" bound="all byte strings of length 0..=10" unwind=12
 slice_h!(c12_av1_leb128, 10, 12, |d| {
     if let Some((_v, n)) = av1::read_leb128(d) {
         assert!(n >= 1 && n <= 8 && n <= d.len());
@@ -57,7 +57,7 @@ slice_h!(c12_av1_leb128, 10, 12, |d| {
     let _ = av1::obu_has_size(b);
 });
 
-//@ prop=C12 tier=quick cost=30 fns="codec::av1::parse_obu_header,read_leb128" bound="all byte strings of length 0..=10" unwind=12
+//@ prop=C12 tier=quick cost=5 fns="codec::av1::parse_obu_header,read_leb128" bound="all byte strings of length 0..=10" unwind=12
 slice_h!(c12_av1_obu_header, 10, 12, |d| {
     if let Some(info) = av1::parse_obu_header(d) {
         assert!(info.header_size >= 1 && info.header_size <= 10);
@@ -65,7 +65,7 @@ slice_h!(c12_av1_obu_header, 10, 12, |d| {
     }
 });
 
-//@ prop=C12 tier=quick cost=60 fns="codec::av1::ObuIter::next,parse_obu_header" bound="all byte strings of length 0..=6, up to 7 next() calls" unwind=10
+//@ prop=C12 tier=quick cost=37 fns="codec::av1::ObuIter::next,parse_obu_header" bound="all byte strings of length 0..=6, up to 7 next() calls" unwind=10
 slice_h!(c12_av1_obu_iter, 6, 10, |d| {
     let mut it = av1::ObuIter::new(d);
     let mut total = 0usize;
@@ -89,20 +89,20 @@ slice_h!(c12_av1_is_keyframe, 6, 9, |d| {
     let _ = av1::is_av1_keyframe(d);
 });
 
-//@ prop=C12 tier=quick cost=20 fns="codec::vp9::is_vp9_keyframe,is_valid_vp9_frame" bound="all byte strings of length 0..=6" unwind=3 stubs="assert_invariant(panic-only)"
+//@ prop=C12 tier=quick cost=5 fns="codec::vp9::is_vp9_keyframe,is_valid_vp9_frame" bound="all byte strings of length 0..=6" unwind=3 stubs="assert_invariant(panic-only)"
 slice_h!(c12_vp9_is_keyframe, 6, 3, |d| {
     let r = vp9::is_vp9_keyframe(d);
     core::mem::forget(r);
     let _ = vp9::is_valid_vp9_frame(d);
 });
 
-//@ prop=C12 tier=quick cost=60 fns="codec::vp9::extract_vp9_config,parse_vp9_var_uint,parse_vp9_color_config" bound="all byte strings of length 0..=12" unwind=8 stubs="assert_invariant(panic-only)"
+//@ prop=C12 tier=quick cost=6 fns="codec::vp9::extract_vp9_config,parse_vp9_var_uint,parse_vp9_color_config" bound="all byte strings of length 0..=12" unwind=8 stubs="assert_invariant(panic-only)"
 slice_h!(c12_vp9_extract, 12, 8, |d| {
     let r = vp9::extract_vp9_config(d);
     core::mem::forget(r);
 });
 
-//@ prop=C12 tier=quick cost=20 fns="codec::opus::opus_frame_duration_from_toc,opus_frame_count,opus_packet_samples,is_valid_opus_packet,OpusFrameDuration::samples,OpusFrameDuration::seconds" bound="all byte strings of length 0..=4, all TOC bytes" unwind=3
+//@ prop=C12 tier=quick cost=5 fns="codec::opus::opus_frame_duration_from_toc,opus_frame_count,opus_packet_samples,is_valid_opus_packet,OpusFrameDuration::samples,OpusFrameDuration::seconds" bound="all byte strings of length 0..=4, all TOC bytes" unwind=3
 slice_h!(c12_opus_all, 4, 3, |d| {
     let toc: u8 = kani::any();
     if let Some(fd) = opus::opus_frame_duration_from_toc(toc) {
@@ -117,7 +117,7 @@ slice_h!(c12_opus_all, 4, 3, |d| {
     let _ = opus::is_valid_opus_packet(d);
 });
 
-//@ prop=C12 tier=quick cost=20 fns="codec::opus::OpusConfig::{default,mono,stereo,with_pre_skip,with_channels}" bound="all u8 channel counts, all u16 pre-skip" unwind=2
+//@ prop=C12 tier=quick cost=5 fns="codec::opus::OpusConfig::{default,mono,stereo,with_pre_skip,with_channels}" bound="all u8 channel counts, all u16 pre-skip" unwind=2
 #[kani::proof]
 #[kani::unwind(2)]
 pub fn c12_opus_config() {
@@ -154,7 +154,7 @@ fixed_h!(c12_h265_is_keyframe_len0, 0, 4, |d| {
 fixed_h!(c12_h265_is_keyframe_len1, 1, 4, |d| {
     let _ = h265::is_hevc_keyframe(d);
 });
-//@ prop=C12 tier=quick cost=10 fns="codec::h265::is_hevc_keyframe,hevc_nal_type,is_hevc_keyframe_nal_type,AnnexBNalIter::next" bound="all byte strings of length 3" unwind=6 stubs="assert_invariant(panic-only)"
+//@ prop=C12 tier=quick cost=16 fns="codec::h265::is_hevc_keyframe,hevc_nal_type,is_hevc_keyframe_nal_type,AnnexBNalIter::next" bound="all byte strings of length 3" unwind=6 stubs="assert_invariant(panic-only)"
 fixed_h!(c12_h265_is_keyframe_len3, 3, 6, |d| {
     let _ = h265::is_hevc_keyframe(d);
 });
@@ -162,11 +162,11 @@ fixed_h!(c12_h265_is_keyframe_len3, 3, 6, |d| {
 fixed_h!(c12_h265_is_keyframe_len4, 4, 7, |d| {
     let _ = h265::is_hevc_keyframe(d);
 });
-//@ prop=C12 tier=quick cost=90 fns="codec::h265::is_hevc_keyframe,hevc_nal_type,is_hevc_keyframe_nal_type,AnnexBNalIter::next" bound="all byte strings of length 6" unwind=9 stubs="assert_invariant(panic-only)"
+//@ prop=C12 tier=quick cost=50 fns="codec::h265::is_hevc_keyframe,hevc_nal_type,is_hevc_keyframe_nal_type,AnnexBNalIter::next" bound="all byte strings of length 6" unwind=9 stubs="assert_invariant(panic-only)"
 fixed_h!(c12_h265_is_keyframe_len6, 6, 9, |d| {
     let _ = h265::is_hevc_keyframe(d);
 });
-//@ prop=C12 tier=thorough cost=60 fns="codec::h265::is_hevc_keyframe,hevc_nal_type,is_hevc_keyframe_nal_type,AnnexBNalIter::next" bound="all byte strings of length 5" unwind=8 stubs="assert_invariant(panic-only)"
+//@ prop=C12 tier=thorough cost=21 fns="codec::h265::is_hevc_keyframe,hevc_nal_type,is_hevc_keyframe_nal_type,AnnexBNalIter::next" bound="all byte strings of length 5" unwind=8 stubs="assert_invariant(panic-only)"
 fixed_h!(c12_h265_is_keyframe_len5, 5, 8, |d| {
     let _ = h265::is_hevc_keyframe(d);
 });
@@ -199,7 +199,7 @@ pub fn c12_h264_extract_empty() {
     crate::vcover!(true, "reached");
 }
 
-//@ prop=C12 tier=quick cost=200 fns="codec::h265::extract_hevc_config,HevcConfig::{general_profile_space,general_tier_flag,general_profile_idc,general_level_idc}" bound="all byte strings of length 9" unwind=12 stubs="assert_invariant(panic-only)" timeout=900
+//@ prop=C12 tier=quick cost=132 fns="codec::h265::extract_hevc_config,HevcConfig::{general_profile_space,general_tier_flag,general_profile_idc,general_level_idc}" bound="all byte strings of length 9" unwind=12 stubs="assert_invariant(panic-only)" timeout=900
 fixed_h!(c12_h265_extract_len9, 9, 12, |d| {
     let r = h265::extract_hevc_config(d);
     if let Some(c) = &r {
@@ -229,7 +229,7 @@ fn fcfg(timescale: u32, frag_ms: u32) -> FragmentConfig {
     FragmentConfig { width: kani::any(), height: kani::any(), timescale, fragment_duration_ms: frag_ms, sps: Vec::new(), pps: Vec::new(), vps: None, av1_sequence_header: None, vp9_config: None }
 }
 
-//@ prop=C12 tier=quick cost=60 fns="fragmented::FragmentedMuxer::new,ready_to_flush,current_fragment_duration_ms" bound="2 queued samples, any u64 dts (non-decreasing), any u32 timescale / target (timescale 0 and spans >= 2^64/1000 excluded while listed as known findings)" unwind=6 stubs="assert_invariant(panic-only)"
+//@ prop=C12 tier=quick cost=6 fns="fragmented::FragmentedMuxer::new,ready_to_flush,current_fragment_duration_ms" bound="2 queued samples, any u64 dts (non-decreasing), any u32 timescale / target (timescale 0 and spans >= 2^64/1000 excluded while listed as known findings)" unwind=6 stubs="assert_invariant(panic-only)"
 #[kani::proof]
 #[kani::unwind(6)]
 #[kani::stub(muxide::invariant_ppt::__assert_invariant_impl, crate::stubs::assert_invariant_stub)]
@@ -252,7 +252,7 @@ pub fn c12_frag_ready_queries() {
     crate::vcover!(ts == 1, "timescale 1");
     core::mem::forget((m, e));
 }
-//@ prop=C12 tier=quick cost=30 fns="fragmented::FragmentedMuxer::ready_to_flush" bound="2 queued samples, timescale 0" unwind=6 expect=fail kf=KF-C12-frag-timescale-zero
+//@ prop=C12 tier=quick cost=5 fns="fragmented::FragmentedMuxer::ready_to_flush" bound="2 queued samples, timescale 0" unwind=6 expect=fail kf=KF-C12-frag-timescale-zero
 #[kani::proof]
 #[kani::unwind(6)]
 pub fn c12_w_frag_timescale_zero() {
@@ -261,7 +261,7 @@ pub fn c12_w_frag_timescale_zero() {
     let _ = m.ready_to_flush();
     core::mem::forget(m);
 }
-//@ prop=C12 tier=quick cost=30 fns="fragmented::FragmentedMuxer::current_fragment_duration_ms" bound="2 queued samples, span > u64::MAX/1000" unwind=6 expect=fail kf=KF-C12-frag-span-ms-overflow
+//@ prop=C12 tier=quick cost=5 fns="fragmented::FragmentedMuxer::current_fragment_duration_ms" bound="2 queued samples, span > u64::MAX/1000" unwind=6 expect=fail kf=KF-C12-frag-span-ms-overflow
 #[kani::proof]
 #[kani::unwind(6)]
 pub fn c12_w_frag_span_ms_overflow() {
@@ -273,7 +273,7 @@ pub fn c12_w_frag_span_ms_overflow() {
     core::mem::forget(m);
 }
 
-//@ prop=C12 tier=quick cost=200 fns="fragmented::FragmentedMuxer::flush_segment,build_media_segment,build_trun" bound="1 queued sample (1 byte), any u64 pts/dts/seq/base (sequence number u32::MAX, dts > u64::MAX-3000 and ticks >= 2^63 excluded while listed as known findings)" unwind=6 timeout=1200 stubs="assert_invariant(panic-only)"
+//@ prop=C12 tier=quick cost=61 fns="fragmented::FragmentedMuxer::flush_segment,build_media_segment,build_trun" bound="1 queued sample (1 byte), any u64 pts/dts/seq/base (sequence number u32::MAX, dts > u64::MAX-3000 and ticks >= 2^63 excluded while listed as known findings)" unwind=6 timeout=1200 stubs="assert_invariant(panic-only)"
 #[kani::proof]
 #[kani::unwind(6)]
 #[kani::stub(muxide::invariant_ppt::__assert_invariant_impl, crate::stubs::assert_invariant_stub)]
@@ -292,7 +292,7 @@ pub fn c12_frag_flush_k1() {
     crate::vcover!(true, "reached");
     core::mem::forget((m, r));
 }
-//@ prop=C12 tier=quick cost=100 fns="fragmented::FragmentedMuxer::flush_segment" bound="1 queued sample; sequence number u32::MAX or dts near u64::MAX" unwind=6 timeout=1200 expect=fail kf=KF-C12-frag-flush-arithmetic-overflow
+//@ prop=C12 tier=quick cost=51 fns="fragmented::FragmentedMuxer::flush_segment" bound="1 queued sample; sequence number u32::MAX or dts near u64::MAX" unwind=6 timeout=1200 expect=fail kf=KF-C12-frag-flush-arithmetic-overflow
 #[kani::proof]
 #[kani::unwind(6)]
 pub fn c12_w_frag_flush_overflow() {
@@ -304,7 +304,7 @@ pub fn c12_w_frag_flush_overflow() {
     let r = m.flush_segment();
     core::mem::forget((m, r));
 }
-//@ prop=C12 tier=quick cost=60 fns="fragmented::build_trun,muxer::mp4::SampleTables::from_samples" bound="1 sample, pts >= 2^63" unwind=6 expect=fail kf=KF-C12-ticks-above-i64
+//@ prop=C12 tier=quick cost=7 fns="fragmented::build_trun,muxer::mp4::SampleTables::from_samples" bound="1 sample, pts >= 2^63" unwind=6 expect=fail kf=KF-C12-ticks-above-i64
 #[kani::proof]
 #[kani::unwind(6)]
 pub fn c12_w_ticks_above_i64() {
@@ -315,7 +315,7 @@ pub fn c12_w_ticks_above_i64() {
 }
 use muxide::verif_hooks::mp4::verif as mp4h2;
 
-//@ prop=C12 tier=quick cost=60 fns="fragmented::FragmentedMuxer::write_video,init_segment" bound="empty queue: any write (2-byte data); init_segment on a VP9/H.264 config with any dims" unwind=40 timeout=900 stubs="assert_invariant(panic-only)"
+//@ prop=C12 tier=quick cost=120 fns="fragmented::FragmentedMuxer::write_video,init_segment" bound="empty queue: any write (2-byte data); init_segment on a VP9/H.264 config with any dims" unwind=40 timeout=900 stubs="assert_invariant(panic-only)"
 #[kani::proof]
 #[kani::unwind(40)]
 #[kani::stub(muxide::invariant_ppt::__assert_invariant_impl, crate::stubs::assert_invariant_stub)]
@@ -332,7 +332,7 @@ pub fn c12_frag_write_and_init() {
 // ===========================================================================
 // progressive kernels behind finalize
 // ===========================================================================
-//@ prop=C12 tier=quick cost=30 fns="muxer::mp4::build_stsz_box" bound="2 sample sizes, all u32 (zero sizes excluded while INV-004 is listed)" unwind=6 stubs="assert_invariant(panic-only),fmt::format"
+//@ prop=C12 tier=quick cost=8 fns="muxer::mp4::build_stsz_box" bound="2 sample sizes, all u32 (zero sizes excluded while INV-004 is listed)" unwind=6 stubs="assert_invariant(panic-only),fmt::format"
 #[kani::proof]
 #[kani::unwind(6)]
 #[kani::stub(muxide::invariant_ppt::__assert_invariant_impl, crate::stubs::assert_invariant_stub)]
@@ -346,7 +346,7 @@ pub fn c12_stsz_sizes() {
     assert!(b.len() == 28);
     crate::vcover!(true, "reached");
 }
-//@ prop=C12 tier=quick cost=30 fns="muxer::mp4::build_stsz_box" bound="one zero-size sample" unwind=6 stubs="assert_invariant(panic-only),fmt::format" expect=fail kf=KF-C12-stsz-zero-size-sample
+//@ prop=C12 tier=quick cost=5 fns="muxer::mp4::build_stsz_box" bound="one zero-size sample" unwind=6 stubs="assert_invariant(panic-only),fmt::format" expect=fail kf=KF-C12-stsz-zero-size-sample
 #[kani::proof]
 #[kani::unwind(6)]
 #[kani::stub(muxide::invariant_ppt::__assert_invariant_impl, crate::stubs::assert_invariant_stub)]
@@ -355,7 +355,7 @@ pub fn c12_w_stsz_zero_size() {
     let b = mp4h2::build_stsz_box(&[5u32, 0]);
     core::mem::forget(b);
 }
-//@ prop=C12 tier=quick cost=60 fns="Mp4Writer::write_audio_sample,adts_to_raw" bound="AAC writer; ADTS frame whose declared length equals its header length is ACCEPTED with an empty payload (leads to INV-004 at finalize)" unwind=14 stubs="assert_invariant(panic-only),fmt::format,String::push" expect=fail kf=KF-C12-stsz-zero-size-sample
+//@ prop=C12 tier=quick cost=14 fns="Mp4Writer::write_audio_sample,adts_to_raw" bound="AAC writer; ADTS frame whose declared length equals its header length is ACCEPTED with an empty payload (leads to INV-004 at finalize)" unwind=14 stubs="assert_invariant(panic-only),fmt::format,String::push" expect=fail kf=KF-C12-stsz-zero-size-sample
 #[kani::proof]
 #[kani::unwind(14)]
 #[kani::stub(muxide::invariant_ppt::__assert_invariant_impl, crate::stubs::assert_invariant_stub)]
@@ -397,11 +397,11 @@ macro_rules! entry_dims_h {
         }
     };
 }
-//@ prop=C12 tier=quick cost=60 fns="muxer::mp4::build_vp09_box" bound="all u32 dims (dims > 65535 excluded while INV-002 is listed)" unwind=40 stubs="assert_invariant(panic-only)"
+//@ prop=C12 tier=quick cost=12 fns="muxer::mp4::build_vp09_box" bound="all u32 dims (dims > 65535 excluded while INV-002 is listed)" unwind=40 stubs="assert_invariant(panic-only)"
 entry_dims_h!(c12_vp09_entry_dims, mp4h2::build_vp09_box, muxide::codec::vp9::Vp9Config { width: 1, height: 1, profile: 0, bit_depth: 8, color_space: 0, transfer_function: 0, matrix_coefficients: 0, level: 0, full_range_flag: 0 });
-//@ prop=C12 tier=quick cost=60 fns="muxer::mp4::build_avc1_box" bound="all u32 dims (dims > 65535 excluded while INV-002 is listed)" unwind=40 stubs="assert_invariant(panic-only)"
+//@ prop=C12 tier=quick cost=14 fns="muxer::mp4::build_avc1_box" bound="all u32 dims (dims > 65535 excluded while INV-002 is listed)" unwind=40 stubs="assert_invariant(panic-only)"
 entry_dims_h!(c12_avc1_entry_dims, mp4h2::build_avc1_box, muxide::codec::h264::AvcConfig::new(vec![0x67, 1, 2, 3], vec![0x68, 1]));
-//@ prop=C12 tier=quick cost=30 fns="muxer::mp4::build_vp09_box" bound="width 65536" unwind=40 stubs="assert_invariant(panic-only)" expect=fail kf=KF-C12-sample-entry-dims-panic
+//@ prop=C12 tier=quick cost=5 fns="muxer::mp4::build_vp09_box" bound="width 65536" unwind=40 stubs="assert_invariant(panic-only)" expect=fail kf=KF-C12-sample-entry-dims-panic
 #[kani::proof]
 #[kani::unwind(40)]
 #[kani::stub(muxide::invariant_ppt::__assert_invariant_impl, crate::stubs::assert_invariant_stub)]
@@ -422,7 +422,7 @@ pub fn c12_days_to_ymd_bounded() {
     assert!(y >= 1970 && y < 2011 && m >= 1 && m <= 12 && dd >= 1 && dd <= 31);
     crate::vcover!(y == 2009, "last year reached");
 }
-//@ prop=C12 tier=quick cost=60 fns="muxer::mp4::days_to_ymd" bound="all u64 days: the year loop needs days/365 iterations (unwinding assertion at 20 fails)" unwind=20 expect=fail expect_unwind=1 kf=KF-C12-calendar-loop-unbounded
+//@ prop=C12 tier=quick cost=21 fns="muxer::mp4::days_to_ymd" bound="all u64 days: the year loop needs days/365 iterations (unwinding assertion at 20 fails)" unwind=20 expect=fail expect_unwind=1 kf=KF-C12-calendar-loop-unbounded
 #[kani::proof]
 #[kani::unwind(20)]
 pub fn c12_w_days_to_ymd_unbounded() {
@@ -430,7 +430,7 @@ pub fn c12_w_days_to_ymd_unbounded() {
     let _ = mp4h2::days_to_ymd(d);
 }
 
-//@ prop=C12 tier=quick cost=120 fns="muxer::mp4::encode_language_code,fragmented::encode_language_code" bound="all strings of 3 bytes that are valid UTF-8 (ASCII and one 2-byte + 1-byte forms), plus the empty string" unwind=8 timeout=900
+//@ prop=C12 tier=quick cost=25 fns="muxer::mp4::encode_language_code,fragmented::encode_language_code" bound="all strings of 3 bytes that are valid UTF-8 (ASCII and one 2-byte + 1-byte forms), plus the empty string" unwind=8 timeout=900
 #[kani::proof]
 #[kani::unwind(8)]
 pub fn c12_language_any_string() {
@@ -491,7 +491,7 @@ vslice_h!(c12_validate_video_frame_av1, 6, 9, |d| {
     assert!(r.is_valid == r.errors.is_empty());
     core::mem::forget(r);
 });
-//@ prop=C12 tier=quick cost=10 fns="validation::validate_video_frame(Vp9),is_vp9_keyframe" bound="all byte strings of length 0..=6, any keyframe flag" unwind=4 stubs="assert_invariant(panic-only),fmt::format"
+//@ prop=C12 tier=quick cost=15 fns="validation::validate_video_frame(Vp9),is_vp9_keyframe" bound="all byte strings of length 0..=6, any keyframe flag" unwind=4 stubs="assert_invariant(panic-only),fmt::format"
 vslice_h!(c12_validate_video_frame_vp9, 6, 4, |d| {
     let r = val::validate_video_frame(VideoCodec::Vp9, d, kani::any());
     assert!(r.is_valid == r.errors.is_empty());
